@@ -126,6 +126,26 @@ def jedi_boot(cache_dir=None):
     return jedi
 
 
+def run_refworker(jobs, hashseed="0", junk=0, cache_dir=None, timeout=300):
+    """Answer `jobs` in a fresh interpreter (see vlib/refworker.py). Returns {job id: answers} or None."""
+    import json
+    import subprocess
+    d = fresh_dir("ref")
+    spec, out = d / "spec.json", d / "out.json"
+    spec.write_text(json.dumps({"junk": junk, "cache_dir": str(cache_dir) if cache_dir else str(d / "cache"), "jobs": jobs}))
+    env = dict(os.environ)
+    env.update({"PYTHONHASHSEED": str(hashseed), "VERIF_TMP": str(d / "tmp"), "PYTHONDONTWRITEBYTECODE": "1"})
+    env.pop("PYTHONPATH", None)
+    try:
+        subprocess.run([PY, "-m", "vlib.refworker", str(spec), str(out)], cwd=str(VERIF), env=env, timeout=timeout,
+                       stdout=subprocess.DEVNULL, stderr=subprocess.DEVNULL)
+    except subprocess.TimeoutExpired:
+        return None
+    if not out.exists():
+        return None
+    return json.loads(out.read_text())
+
+
 def reset_caches():
     """Forget in-memory parser trees and time caches (start of a generated case)."""
     import parso.cache
